@@ -141,9 +141,14 @@ def narrowing_casts(fb, in_scope):
             if blk.get("cu"):
                 continue
             for st in blk["s"]:
-                if st[0] != "=" or st[2][0] != "cast" or st[2][1] != "IntToInt":
+                if st[0] != "=" or st[2][0] != "cast" or st[2][1] not in ("IntToInt", "FloatToInt"):
                     continue
                 frm, to = st[2][3], st[2][4]
+                if st[2][1] == "FloatToInt":
+                    # `f as iN` saturates and drops the fraction: never provable in range by interval reasoning on integers
+                    if C.eval_const(f, st[2][2]) is None:
+                        yield {"fn": k, "root": f.root, "block": bi, "frm": frm, "to": to, "discharged": None, "line": st[3]}
+                    continue
                 if not is_narrowing(frm, to):
                     continue
                 src = st[2][2]
